@@ -34,6 +34,22 @@ class M(Opaque):
     pass
 
 
+class HQ(M):
+    """heavy-quark triple: attributes c, b, t and, like the real list-based class, iteration / indexing in that order"""
+
+    def _seq(self):
+        return [self.c, self.b, self.t]
+
+    def __iter__(self):
+        return iter(self._seq())
+
+    def __getitem__(self, i):
+        return self._seq()[i]
+
+    def __len__(self):
+        return 3
+
+
 def cards():
     op = M()
     op._real = "eko.io.runcards.OperatorCard"  # members not set here are the real card's properties
@@ -50,12 +66,70 @@ def cards():
     th.couplings.ref = (dag.sym("mz"), 5)
     th.couplings.alphas = dag.sym("alphas_ref")
     th.heavy = M()
-    th.heavy.masses = M()
+    th.heavy.masses = HQ()
     for q in "cbt":
         r = M()
         r.value = dag.sym("m" + q)
         setattr(th.heavy.masses, q, r)
     return th, op
+
+
+def _norm(v):
+    if isinstance(v, Arr):
+        return ("arr", tuple(v.flat()))
+    if isinstance(v, (list, tuple)):
+        return ("seq", tuple(_norm(x) for x in v))
+    return v
+
+
+def _same_args(got, want, seed):
+    (ga, gk), (wa, wk) = got, want
+    if len(ga) != len(wa) or set(gk) != set(wk):
+        return False
+    pairs = list(zip(ga, wa)) + [(gk[k], wk[k]) for k in wk]
+
+    def same(a, b):
+        a, b = _norm(a), _norm(b)
+        if isinstance(a, tuple) and isinstance(b, tuple) and len(a) == len(b) == 2 and a[0] == b[0] and a[0] in ("arr", "seq"):
+            return len(a[1]) == len(b[1]) and all(same(x, y) for x, y in zip(a[1], b[1]))
+        if isinstance(a, (dag.Node, Fraction, int, float)) and isinstance(b, (dag.Node, Fraction, int, float)) \
+                and not isinstance(a, bool) and not isinstance(b, bool):
+            return dag.is_zero_fp([dag.sub(dag.tonode(a), dag.tonode(b))], seed, 2)[0]
+        return a is b or a == b
+
+    return all(same(a, b) for a, b in pairs)
+
+
+def _show(args):
+    a, k = args
+    def sh(v):
+        v = _norm(v)
+        if isinstance(v, tuple) and len(v) == 2 and v[0] in ("arr", "seq"):
+            return "[" + ", ".join(sh(x) for x in v[1]) + "]"
+        if isinstance(v, dag.Node):
+            return dag.short(v)
+        return type(v).__name__ if isinstance(v, Opaque) else str(v)
+    return "(" + ", ".join([sh(x) for x in a] + [f"{n}={sh(x)}" for n, x in sorted(k.items())]) + ")"
+
+
+def _effective_range(ia, ik, upd):
+    """x range the info file ends up with: the caller's update wins, otherwise the builder's default, the first / last point of
+    the operator card's grid it is given (decided for info_file.build in section 1)"""
+    opc = ia[1] if len(ia) > 1 else ik.get("operators_card")
+    try:
+        raw = opc.xgrid.raw
+        dflt = (raw[0], raw[len(raw) - 1])
+    except Exception:
+        dflt = (None, None)
+    if not isinstance(upd, dict):
+        return (None, None)
+    return (upd.get("XMin", dflt[0]), upd.get("XMax", dflt[1]))
+
+
+def _assigned(f, key):
+    """info_update[key] is assigned in function f"""
+    return any(isinstance(n, ast.Assign) and any(isinstance(t, ast.Subscript) and isinstance(t.slice, ast.Constant) and t.slice.value == key
+                                                 for t in n.targets) for n in ast.walk(f.node))
 
 
 def _float_cast(f, key):
@@ -103,6 +177,9 @@ def run(chk):
         chk.decide(ok, "info-matches-the-data", fb.qname, f"members/flavours/order/masses/alpha_s section: {dict((k, r.get(k)) for k in ('NumMembers', 'NumFlavors', 'OrderQCD', 'MCharm', 'MZ', 'AlphaS_Vals'))}",
                    where=fb.where, instance=f"given={given}", how="PE")
     # ---- (2) build_alphas ------------------------------------------------------------------------------------------------------
+    # the alpha_s table must come from a coupling object built exactly like the solver's: both constructions are evaluated with a
+    # recording Couplings class and compared argument by argument (so calling the solver's constructor and an equivalent own
+    # construction are both accepted)
     pe = PE(src)
     built = []
 
@@ -111,23 +188,32 @@ def run(chk):
             return dag.fn("as", dag.tonode(mu2), dag.const(nf_to if nf_to is not None else -1))
 
     def mk(p, a, k):
-        built.append((a, k))
+        built.append((list(a), dict(k)))
         return SC()
 
-    pe.overrides["eko.runner.commons.couplings"] = mk
+    pe.overrides["eko.couplings.Couplings"] = mk
+    pe.overrides["eko.io.runcards.masses"] = lambda p, a, k: ("MASSES", a[0], a[1] if len(a) > 1 else k.get("evmeth"))
     th, op = cards()
+    EV = pe.enum_members(pe.get_global("eko.io.types", "EvolutionMethod").cls)
+    SVM = pe.enum_members(pe.get_global("eko.io.types", "ScaleVariationsMethod").cls)
+    th.heavy.matching_ratios = [dag.sym("kc"), dag.sym("kb"), dag.sym("kt")]
+    th.heavy.masses_scheme = "SCHEME"
+    th.xif = dag.sym("xif")
+    op.configs.evolution_method = EV["ITERATE_EXACT"]
+    op.configs.scvar_method = SVM["EXPONENTIATED"]
+    pe.call("eko.runner.commons.couplings", [th, op])
+    chk.need(len(built) == 1, "runner.commons.couplings no longer builds exactly one Couplings object")
+    ref_args = built.pop()
     try:
         r = pe.call(fa.qname, [th, op])
-    except (PERaise, AttributeError) as e:
+    except PERaise as e:
         r = None
-        chk.fail("alphas-from-the-solver-couplings", fa.qname, f"build_alphas needs more than the solver's couplings of the two cards: {e}",
-                 where=fa.where)
+        chk.fail("alphas-from-the-solver-couplings", fa.qname, f"build_alphas raises {e}", where=fa.where)
     if r is not None:
-        okc = len(built) == 1 and list(built[0][0]) == [th, op] and not built[0][1]
-        direct = [c for c in src.calls_in(fa) if (src.dotted(c.func) or "").endswith("Couplings")]
-        chk.decide(okc and not direct, "alphas-from-the-solver-couplings", fa.qname, f"couplings built {len(built)} time(s) through "
-                   f"runner.commons.couplings with the two cards: {okc}; own Couplings(...) constructions: {len(direct)} - the values must "
-                   f"come from the constructor the solver uses", where=fa.where, how="PE + call-site rule")
+        okc = len(built) == 1 and _same_args(built[0], ref_args, chk.seed)
+        chk.decide(okc, "alphas-from-the-solver-couplings", fa.qname, f"build_alphas constructs {len(built)} coupling object(s) with "
+                   f"{_show(built[0]) if built else None}; the solver's constructor gives {_show(ref_args)} for the same cards - the alpha_s "
+                   f"table must describe the coupling the operators were computed with", where=fa.where, how="sibling comparison by PE")
         want = [(Fraction(2), 3), (Fraction(3), 4), (Fraction(10), 5), (Fraction(50), 5)]
         qs = r.get("AlphaS_Qs")
         vals = r.get("AlphaS_Vals")
@@ -197,9 +283,11 @@ def run(chk):
         upd = ik.get("info_update", ia[3] if len(ia) > 3 else {})
         nmem = ia[2] if len(ia) > 2 else ik.get("num_members")
         wraw = written.raw
-        chk.decide(isinstance(upd, dict) and eqv(upd.get("XMin", 0), wraw[0]) and eqv(upd.get("XMax", 0), wraw[nxw - 1]) and nmem == 2,
-                   "info-ranges-bound-the-written-grids", fe.qname, f"{inst}: info built with update {upd} and {nmem} members; required the first/"
-                   f"last point of the written grid and 2 members", where=fe.where, instance=inst, how="PE with mocks")
+        xmin, xmax = _effective_range(ia, ik, upd)
+        chk.decide(isinstance(upd, dict) and xmin is not None and eqv(xmin, wraw[0]) and eqv(xmax, wraw[nxw - 1]) and nmem == 2,
+                   "info-ranges-bound-the-written-grids", fe.qname, f"{inst}: info built with update {upd} and {nmem} members, i.e. x range "
+                   f"({xmin}, {xmax}) after the defaults of the info builder; required the first/last point of the written grid and 2 members",
+                   where=fe.where, instance=inst, how="PE with mocks")
         # apply_pdf interpolates by iterating over the target points (len(), `for x in targetgrid`): it needs the plain array of
         # points, not the grid object
         def plain_points(v):
@@ -210,7 +298,7 @@ def run(chk):
                    f"every member, on the archive just read, with the plain array of the explicit target points (apply_pdf iterates over them) "
                    f"or None", where=fe.where, instance=inst)
         chk.decide(isinstance(upd, dict) and all(isinstance(upd.get(k), (float, int, Fraction)) or (isinstance(upd.get(k), dag.Node) and dag.as_const(upd.get(k)) is not None)
-                                                 for k in ("XMin", "XMax")) and _float_cast(fe, "XMin") and _float_cast(fe, "XMax"),
+                                                 for k in ("XMin", "XMax") if k in upd) and all(_float_cast(fe, k) for k in ("XMin", "XMax") if _assigned(fe, k)),
                    "info-values-are-plain-numbers", fe.qname, f"{inst}: XMin/XMax handed to the info file are not cast to float: the info file is written "
                    f"with a safe YAML dumper, which refuses NumPy scalars", where=fe.where, instance=inst)
         d = cap.get("dump")
@@ -242,5 +330,54 @@ def run(chk):
         chk.decide(ok and not bad, "blocks-equal-applied-pdfs", fe.qname, f"{inst}: exporter called with name/info/members ok={ok}; deviations: {bad[:3]}; "
                    f"required value[(x, Q), pid] = x * applied[(Q^2, nf)][pid][index of x], one block per nf with sorted scales, on the written grid",
                    where=fe.where, instance=inst, how="PE with mocks + PIT")
+    # ---- (4) histories: one info_update dict handed to two exports ----------------------------------------------------------------------
+    # the caller's dict may be reused; whatever an earlier export left in it, the x range of the next set must bound ITS written grid
+    for first, second in ((True, False), (False, True), (False, False)):
+        pe = PE(src)
+        th, op = cards()
+        tgt = M()
+        tgt.raw = Arr.from_nested([Fraction(1, 5), Fraction(3, 5)])
+        op.xgrid.raw = Arr.from_nested([Fraction(1, 10), Fraction(1, 2), Fraction(1)])
+        eqv = lambda a, b: dag.is_zero_fp([dag.sub(dag.tonode(a), dag.tonode(b))], chk.seed, 1)[0]
+        evolgrid = [(Fraction(100), 5)]
+        pids = list(pe.get_global("eko.basis_rotation", "flavor_basis_pids"))
+        cap = {}
+
+        class Eko2(Opaque):
+            _real = "eko.io.struct.EKO"
+
+            def __init__(self):
+                self.evolgrid = list(evolgrid)
+
+            def __enter__(self):
+                return self
+
+            def __exit__(self, *a):
+                return False
+
+        def apply_pdf2(p, a, k, cap=cap):
+            n = cap["nx"]
+            return ({ep: {pid: Arr.from_nested([dag.sym(f"g{i}") for i in range(n)]) for pid in pids} for ep in evolgrid}, None)
+
+        pe.overrides["ekobox.apply.apply_pdf"] = apply_pdf2
+        pe.overrides["eko.runner.managed.solve"] = lambda p, a, k: None
+        pe.overrides["eko.io.struct.EKO.read"] = lambda p, a, k: Eko2()
+        pe.overrides["ekobox.info_file.build"] = lambda p, a, k, cap=cap: cap.update(info_args=(a, dict(k), dict(k.get("info_update", a[3] if len(a) > 3 else {}) or {}))) or "INFO"
+        pe.overrides["ekobox.genpdf.export.dump_set"] = lambda p, a, k: None
+        shared = {}
+        for step, explicit in enumerate((first, second)):
+            inst = f"shared info_update, call {step + 1} of (target={first}, target={second})"
+            cap["nx"] = 2 if explicit else 3
+            try:
+                pe.call(fe.qname, [["A"], th, op], {"store_path": "STORE", "targetgrid": tgt if explicit else None, "name": "N", "info_update": shared})
+            except PERaise as e:
+                chk.fail("info-ranges-bound-the-written-grids", fe.qname, f"{inst}: raises {e}", where=fe.where, instance=inst)
+                break
+            ia, ik, upd = cap["info_args"]
+            xmin, xmax = _effective_range(ia, ik, upd)
+            wraw = (tgt if explicit else op.xgrid).raw
+            chk.decide(xmin is not None and eqv(xmin, wraw[0]) and eqv(xmax, wraw[len(wraw) - 1]), "info-ranges-bound-the-written-grids", fe.qname,
+                       f"{inst}: the info file gets the x range ({xmin}, {xmax}) but the set is written on [{wraw[0]}, {wraw[len(wraw) - 1]}]: a range "
+                       f"left in the caller's dict by the previous export survives", where=fe.where, instance=inst, how="PE with mocks, two calls")
     chk.note(files=["src/ekobox/info_file.py", "src/ekobox/evol_pdf.py", "src/ekobox/genpdf/__init__.py", "src/ekobox/utils.py"])
     chk.explanation = "Info ranges, alpha_s wiring and block values decided by PE with symbolic cards and mock collaborators."
